@@ -11,7 +11,7 @@
 const char* const PROPERTY_ID = "C01";
 const size_t PROPERTY_MAXLEN = 200;
 
-void property_init() { vf::install_ada_idna_plugin(); }
+void property_init() { vf::install_ada_idna_plugin();  vf::gen::g_huge_hosts = true; }
 
 namespace {
 
